@@ -18,6 +18,7 @@ from common import f2h, h2f, VERIF, REPO
 import gen_comp
 import extract_comp as X
 import c03
+import c07_comp
 
 import autofit as af
 from autofit.mapper.identifier import Identifier
@@ -295,6 +296,8 @@ def one_case(ctx, prog, sspec=None, tag="__none__", label="gen"):
     correspond(ctx, "model", model, case)
     correspond(ctx, "search", search, case)
     correspond(ctx, "fit", [search, model] + ([tag] if tag is not None else []), case)
+    c07_comp.correspond_comp(ctx, model, search, tag, case, pyval, tokens_equal)  # composition route (IdentComp.lean)
+    c07_comp.correspond_search(ctx, search, case, pyval, tokens_equal)  # generated table of identifying settings
 
     base = fit_id(search, model, tag)
 
@@ -471,6 +474,7 @@ def run(ctx):
     pinned_search_fields(ctx)
     same_named_classes(ctx)
     folder_identity(ctx)
+    c07_comp.join_collisions(ctx, mk_search)  # the join (IdentJoin.lean): pairs of different fits
 
 
 class _FlatAnalysis(af.Analysis):
@@ -603,5 +607,7 @@ def replay(ctx, payload):
         same_named_classes(ctx)
     elif case.get("label") == "folder-identity":
         folder_identity(ctx)
+    elif str(case.get("label", "")).startswith("pair:") or case.get("label") == "collision":
+        c07_comp.join_collisions(ctx, mk_search)
     else:
         caller_names(ctx)
